@@ -75,6 +75,11 @@ pub mod verif_hooks {
         super::sanity::verif_verify_no_overlap_contiguous(a, b)
     }
 
+    /// The real registration of the VM side specs (first step of `initialize_side_metadata`).
+    pub fn set_vm_specs(specs: &[SideMetadataSpec]) {
+        super::layout::set_vm_side_metadata_specs(specs)
+    }
+
     /// Bytes reserved for all side metadata at start-up.
     pub fn reserved_bytes() -> usize {
         super::layout::side_metadata_reserved_bytes()
